@@ -67,6 +67,7 @@ def exprName (names : List String) : Expr → String
   | .sub a b => "(" ++ exprName names a ++ " - " ++ exprName names b ++ ")"
   | .mul a b => "(" ++ exprName names a ++ " * " ++ exprName names b ++ ")"
   | .div a b => "(" ++ exprName names a ++ " / " ++ exprName names b ++ ")"
+  | .mod a b => "(" ++ exprName names a ++ " % " ++ exprName names b ++ ")"
   | .eq a b => "(" ++ exprName names a ++ " = " ++ exprName names b ++ ")"
   | .ne a b => "(NOT (" ++ exprName names a ++ " = " ++ exprName names b ++ "))"
   | .lt a b => "(" ++ exprName names a ++ " < " ++ exprName names b ++ ")"
